@@ -39,3 +39,47 @@ Example C16_nonsingular_example : Equimodular 2 2 [[-2; -2]; [-2; 1]] 6.
 Proof. exact ex_equimodular_6. Qed.
 Example C16_not_equimodular_example : forall k, ~ Equimodular 2 2 [[2; 4]; [1; 2]] k.
 Proof. exact ex_not_equimodular. Qed.
+
+(* ---------- the value does not depend on the basis: a matrix is equimodular for at most one k (EquiUnique.v; closes the gap
+   "independence of the chosen basis"), so the list the oracle computes has at most one value ---------- *)
+From Cmr Require EquiCertModel EquiUnique EquiCertProofs.
+Theorem C16_value_independent_of_the_basis : forall m n M k k',
+  Equimodular m n M k -> Equimodular m n M k' -> k = k'.
+Proof. exact EquiUnique.equimodular_unique'. Qed.
+Print Assumptions C16_value_independent_of_the_basis.
+
+Theorem C16_oracle_single_valued : forall m n M k k',
+  In k (equimod_all m n M) -> In k' (equimod_all m n M) -> k = k'.
+Proof. exact EquiUnique.equimod_all_unique. Qed.
+Print Assumptions C16_oracle_single_valued.
+
+(* ---------- every size: instances with a certificate.  M = L X with L = elementary row operations applied to a nonsingular
+   diagonal matrix (so |det L| is the product of the diagonal: det_apply_ops) and X a totally unimodular matrix (certified by a
+   digraph or by series-parallel reductions) whose columns B form the identity: M is equimodular with determinant gcd |det L|
+   by the definition, and with no other value; an accepted `equi_cert` record carries exactly that answer ---------- *)
+Theorem C16_constructed_instances : forall m r n L X B,
+  wf_mat m r L = true -> wf_mat r n X = true -> length B = r -> strictly_increasing B = true -> all_lt n B = true ->
+  EquiCertModel.identity_at r X B = true -> tu_bf r n X = true -> 0 < minors_gcd m r L ->
+  Equimodular m n (mat_mul_cols m r n L X) (minors_gcd m r L).
+Proof. exact EquiUnique.equimodular_construct_b. Qed.
+Print Assumptions C16_constructed_instances.
+
+Theorem C16_row_operations_keep_the_determinant : forall (d : list Z) (ops : list EquiCertModel.rowop), let m := length d in
+  wf_mat m m (fold_left (EquiCertModel.apply_op m) ops (EquiCertModel.diag_mat d)) = true /\
+  Z.abs (det m (fold_left (EquiCertModel.apply_op m) ops (EquiCertModel.diag_mat d))) = Z.abs (fold_right Z.mul 1 d).
+Proof. exact EquiUnique.det_apply_ops. Qed.
+Print Assumptions C16_row_operations_keep_the_determinant.
+
+Theorem C16_certified_matrices_of_every_size : forall rec variant kin m n M rc v kout d ops xr xc X B w rest,
+  EquiCertModel.equi_cert_input rec = Some ((variant, kin, (m, n, M), rc, v, kout, d, ops, (xr, xc, X), B, w), rest) ->
+  variant = 0 \/ variant = 2 ->
+  EquiCertModel.equi_cert_check m n M d ops xr xc X B w = true ->
+  EquiCertModel.judge_equi_cert rec = 0 -> rc <> 5 ->
+  let k := Z.abs (fold_right Z.mul 1 d) in
+  rc = 0 /\ 0 < k /\ Equimodular m n M k /\ (forall k', Equimodular m n M k' -> k' = k) /\
+  (v = 0 \/ v = 1) /\
+  (variant = 0 -> (v = 1 <-> kin = 0 \/ kin = k)) /\
+  (variant = 2 -> (v = 1 <-> k = 1)) /\
+  (variant = 0 -> v = 1 -> kout = k).
+Proof. exact EquiCertProofs.judge_equi_cert_sound. Qed.
+Print Assumptions C16_certified_matrices_of_every_size.
